@@ -7,6 +7,7 @@ separate configuration, I/O errors at the read seam. Oracle: the executable mode
 file's R-alone outcome."""
 import copy
 import itertools
+import os
 import re
 
 from .. import core
@@ -68,7 +69,7 @@ class C04(Engine):
     prop = "C04"
     name = "cli-sim"
     level = "exploration"
-    expected_kinds = {"mode_explicit", "mode_dir", "mode_cwd", "listing_perm", "fatal_mid_run", "eio", "eacces", "enoent"}
+    expected_kinds = {"mode_explicit", "mode_dir", "mode_cwd", "listing_perm", "fatal_mid_run", "eio", "eacces", "enoent", "gitignore", "gitignore_dropped_a_file"}
     rule_text = ("All class sequences of length 0..4 over {clean, notice-only, erroneous, fatal} (341) x 3 modes (explicit paths, one "
                  "directory argument, no argument/cwd), each instantiated with k seeded draws of concrete files (class membership "
                  "measured with R-alone); lengths 5..12 sampled; every sampled multiset in up to 24 orders; directory modes get their "
@@ -94,7 +95,7 @@ class C04(Engine):
                 raise RuntimeError(f"no pool member of class {c}")
             self.count("pool_classes", c, len(self.members[c]))
 
-    def instantiate(self, rng, seq, mode, idx, io_fault=None):
+    def instantiate(self, rng, seq, mode, idx, io_fault=None, git=True):
         P = self.pools
         fids = []
         for c in seq:
@@ -146,6 +147,24 @@ class C04(Engine):
         elif k < 0.5:
             op["argv"] = ["-o"] + op["argv"]
         sc = {"kind": "run", "mode": mode, "seq": list(seq), "tree": tree, "selected": list(zip(paths, fids)), "ops": [op]}
+        g = core.derive_rng("c04.git", self.seed, idx)      # its own stream: the runs without the option stay what they were
+        if git and not io_fault and paths and g.random() < 0.22:
+            # --use-gitignore (stub git, S4): the files git ignores are not part of the run; everything else as M-run says
+            rels = sorted(set(("src/" if mode == "cwd" else "") + os.path.normpath(p) for p in paths))
+            rules = []
+            for rel in rels:
+                k2 = g.random()
+                if k2 < 0.35:
+                    rules.append({"path": rel, "neg": False})
+                elif k2 < 0.45:
+                    rules.append({"path": rel.rsplit("/", 1)[0], "neg": False})     # the directory holding it
+            if rules and g.random() < 0.25:
+                rules.append({"path": rules[g.randrange(len(rules))]["path"], "neg": True})
+            for k2, r in enumerate(rules):
+                r["line"] = k2 + 1
+            op["argv"] = ["--use-gitignore"] + op["argv"]
+            op["git"] = {"rules": rules, "fault": None}
+            sc["gitignore"] = True
         if io_fault:
             kind, call = io_fault
             op["faults"] = [{"seam": "open", "call": call, "kind": kind}]
@@ -247,6 +266,10 @@ class C04(Engine):
                 return []          # a path argument no longer exists: outside M-run (C15's matter)
         else:
             sel = [(p, fid) for p, fid in sorted(tf.items())]
+        if "--use-gitignore" in sc["ops"][0]["argv"]:
+            rules = core.git_rules(sc["ops"][0].get("git") or {})
+            sel = [(p, fid) for p, fid in sel
+                   if not core.git_decide(norm_rel(p, cwd) if mode == "explicit" else p, rules)[0]]
         alone = {}
         for p, fid in sel:
             key, _ = ref_api(sc, fid)
@@ -354,6 +377,13 @@ class C04(Engine):
     def observe(self, idx, sc, r):
         o = r["ops"][0]
         self.fire("mode_" + sc["mode"])
+        if "--use-gitignore" in sc["ops"][0]["argv"]:
+            self.fire("gitignore")
+            rules = core.git_rules(sc["ops"][0].get("git") or {})
+            cwd = sc["ops"][0].get("cwd", ".")
+            if any(core.git_decide(norm_rel(p, cwd) if sc["mode"] == "explicit" else ("src/" + p if sc["mode"] == "cwd" else p), rules)[0]
+                   for p, _ in sc.get("selected", [])):
+                self.fire("gitignore_dropped_a_file")
         if sc["ops"][0].get("glob_perms") and sc["ops"][0]["glob_perms"][0] is not None:
             self.fire("listing_perm")
         if sc["kind"] == "ioerr":
@@ -390,7 +420,7 @@ class C04(Engine):
         for i, (seq, mode) in enumerate([(("clean",), "dir"), (("erroneous", "clean"), "explicit"), (("notice",), "cwd"),
                                          (("clean", "fatal"), "explicit"), ((), "dir"), (("clean", "erroneous", "notice"), "explicit")]):
             rng = core.derive_rng("c04.fid", self.seed, i)
-            sc = self.instantiate(rng, seq, mode, i)
+            sc = self.instantiate(rng, seq, mode, i, git=False)      # the real git has no repository there
             sc["ops"][0]["glob_perms"] = None
             scs.append(sc)
         bad = fidelity_sample(self, scs)
@@ -435,6 +465,10 @@ class C04(Engine):
         if op.get("glob_perms"):
             c = copy.deepcopy(sc)
             c["ops"][0]["glob_perms"] = None
+            yield c
+        for j in range(len((op.get("git") or {}).get("rules", []))):
+            c = copy.deepcopy(sc)
+            del c["ops"][0]["git"]["rules"][j]
             yield c
         for j, a in enumerate(op["argv"]):
             if a in ("--no-colors", "-o"):
